@@ -16,6 +16,14 @@ Monitors (all on the real cherab.tools.inversions functions):
                  nnls:residual-norm-inconsistent (wrapper).
   lstsq        : |g|_inf <= tau; residuals[0] = |Cx-d|^2 when non-empty.
   svd          : |W^T(Wx-b)|_inf <= tau and x orthogonal to null(W) (minimum norm), skipped when the numerical rank is ambiguous.
+  objective    : (nnls / lstsq / svd) the minimiser of a rank-deficient system is a subspace, so the minimiser property is also
+                 judged on the objective: |Cx-d|^2 of the returned x (extended precision) must not exceed the objective of an
+                 independent reference (own truncated SVD of the stacked system; for NNLS feasible candidates: clipped SVD
+                 solution, bounded-variable LS, x = 0) by more than the second-order term of a 1e-8 gradient plus the noise of
+                 evaluating f at a float64 vector of legitimate size -- a blown-up x buys no tolerance.  Rank-deficiency class:
+                 duplicated / proportional / linearly dependent columns and rows, low-rank products, N_d >= N_s, alpha in
+                 {0, 1e-300, 1e-12, 1e-9, 1e-6} as well as ordinary values.  (Emptiness of the lstsq residual array is not
+                 documented by the wrapper and is not judged.)
   zero_b       : b = 0 driven as its own class for all five entry points (x = 0 is the exact solution / minimiser).
   signs        : measurement vectors without a positive entry (zeros and negatives), all-negative and mixed-sign vectors for all
                  five entry points; SART accepts them (the rule and the convergence measure are defined, the iterates are clipped
@@ -48,7 +56,9 @@ RULE = ("random systems: grids nx,ny in 1..8 (n = nx*ny cells), m in 1..40 obser
         "and Laplacian as int / float32 / list / strided, alpha as int / numpy scalars, initial guesses as bool / numpy "
         "scalars / int / float32 / list / view; what the unchanged code refuses with a clean TypeError/ValueError is a "
         "counted skip class.  Measurements also without any positive entry / all negative / mixed sign.  12 % of the cases "
-        "are call sequences (2-5 calls reusing the same objects modified in place, see module docstring).  A case is non-trivial when a "
+        "are call sequences (2-5 calls reusing the same objects modified in place, see module docstring); 30 % of the LSQ-type "
+        "(10 % of the SART) cases are forced rank deficient (duplicated / proportional / dependent columns or rows, low rank, "
+        "often N_d >= N_s) with alpha in {0, 1e-300, 1e-12, 1e-9, 1e-6} or ordinary.  A case is non-trivial when a "
         "deciding comparison (iterate, KKT / normal-equation certificate) was evaluated on a system with W != 0, b != 0; "
         "distinct = distinct system recipes")
 LEVEL_TEXT = ("Exploration by runtime reference-model monitoring: every generated system is solved by the real functions and "
@@ -79,7 +89,7 @@ ASAN_MODULES = ['cherab.tools.inversions.sart']
 ASAN = dict(cases=3000, workers=8, timecap=240)
 QUICK = dict(cases=3000, workers=2, timecap=38)
 THOROUGH = dict(cases=100000, workers=16, timecap=600)
-REQUIRED = {"seq_calls": 150, "seq_twin": 200, "nonpos_b": 40, "sart_iterate": 1000, "csart_iterate": 800, "sart_conv": 500, "csart_conv": 500, "sart_stop": 50,
+REQUIRED = {"lstsq_objective": 150, "nnls_objective": 200, "svd_objective": 100, "seq_calls": 150, "seq_twin": 200, "nonpos_b": 40, "sart_iterate": 1000, "csart_iterate": 800, "sart_conv": 500, "csart_conv": 500, "sart_stop": 50,
             "csart_stop": 50, "sart_nonneg": 80, "csart_nonneg": 80, "fixed_point": 100, "nnls_kkt": 50,
             "nnls_rnorm": 50, "lstsq_normal": 30, "lstsq_residual": 10, "svd_normal": 20, "svd_min_norm": 10,
             "zero_b": 10}
@@ -176,6 +186,27 @@ def gen_case(rng, tier):
         case["seq"] = dict(n=int(rng.integers(2, 6)), interleave=bool(rng.random() < 0.5), seed=int(rng.integers(2 ** 31)))
         if "max_iterations" in case:
             case["max_iterations"] = min(case["max_iterations"], 80)
+    if rng.random() < (0.3 if solver in ("nnls", "lstsq", "svd") else 0.1):
+        # rank-deficiency class: linearly dependent columns / rows without zero rows or columns being needed, often with
+        # N_d >= N_s, and (for the regularised solvers) with the regularisation switched off or far below the matrix scale
+        kind = _pick(rng, ["dup_cols", "prop_cols", "lincomb_cols", "lowrank", "dup_rows", "prop_rows", "lincomb_rows"],
+                     [0.2, 0.2, 0.15, 0.2, 0.1, 0.08, 0.07])
+        if rng.random() < 0.6:
+            case["m"] = m = min(68, max(m, n + int(rng.integers(0, 5))))
+        if kind == "lowrank":
+            case["wkind"] = "lowrank"
+            case["rank"] = int(rng.integers(1, max(2, min(m, n))))
+        else:
+            if case["wkind"] in ("zeros", "identity", "lowrank"):
+                case["wkind"] = "dense"
+            case["mods"][kind] = int(rng.integers(1, 3))
+        case["rankdef"] = kind
+        if solver in ("nnls", "lstsq"):
+            if rng.random() < 0.5:
+                case["alpha"] = float(_pick(rng, [0.0, 1e-300, 1e-12, 1e-9, 1e-6], [0.4, 0.15, 0.15, 0.15, 0.15]))
+            if rng.random() < 0.5:
+                case["tikkind"] = "none"
+                case["reps"].pop("T", None)
     return case
 
 
@@ -272,6 +303,19 @@ def fixed_cases(tier):
         for bk in ("nonpositive", "all_negative", "mixed"):
             t = {k: v for k, v in s.items() if k != "seq"}
             out.append(dict(t, bkind=bk))
+    for solver in ("nnls", "lstsq", "svd"):
+        for md in ({"dup_cols": 1}, {"prop_cols": 1}, {"lincomb_cols": 1}, {"prop_rows": 2}):
+            for al in (0.0, 1e-300, 1e-12, 0.01):
+                t = dict(base, solver=solver, wkind="dense", m=14, mods=dict(md), bkind="noisy")
+                if solver != "svd":
+                    t.update(alpha=al, tikkind="none")
+                elif al != 0.0:
+                    continue
+                out.append(t)
+        t = dict(base, solver=solver, wkind="lowrank", rank=3, m=14, bkind="noisy")
+        if solver != "svd":
+            t.update(alpha=0.0, tikkind="none")
+        out.append(t)
     # regression witness of the scipy.optimize.nnls pass-through finding (one chord seeing 3 of 5 cells, identity Tikhonov)
     out.append(dict(base, solver="nnls", nx=1, ny=5, m=1, wkind="explicit", W=[[0.0, 0.0, 0.804, 0.475, 0.583]],
                     bkind="explicit", b=[0.001], alpha=0.102, tikkind="none"))
@@ -292,6 +336,8 @@ def _classes(case, ctx, W, b):
     ctx.cls("w:" + case["wkind"])
     for k in case.get("mods", {}):
         ctx.cls("mod:" + k)
+    if "rankdef" in case:
+        ctx.cls("rankdef:%s:%s" % (case["solver"], case["rankdef"]))
     ctx.cls("b:" + case["bkind"])
     if (W.sum(axis=0) == 0).any():
         ctx.cls("has_zero_col")
@@ -754,6 +800,28 @@ def _run_sart(case, ctx, o):
 
 # ---- regularised least squares ----------------------------------------------------------------
 
+def _objective_check(ctx, key, monitor, C, d, x, eps, rtol, extra_candidates=(), plain=False, prefix="", constrained=False):
+    """Minimiser property judged on the OBJECTIVE (the minimiser of a rank-deficient system is not unique): the returned
+    vector must not do worse than an independent reference solution by more than the computed tolerance."""
+    ref = rm.ls_reference(C, d, eps)
+    # unconstrained: the truncated-SVD solution; constrained (x >= 0): only feasible candidate vectors bound the minimum
+    f_ref = ref["f_ref"] if not constrained else ref["nd"] ** 2          # x = 0 is always feasible
+    for xc in extra_candidates:          # any feasible vector is a valid upper bound of the minimum
+        f_ref = min(f_ref, rm.objective(C, d, xc))
+    nx = float(np.linalg.norm(x))
+    tol = rm.objective_tolerance(ref, f_ref, nx, eps, rtol)
+    f = rm.objective(C, d, x)
+    ctx.mon(monitor)
+    if f <= f_ref + tol or not np.isfinite(tol):
+        if tol > 0 and f > f_ref:
+            ctx.margin(monitor, (f - f_ref) / tol)
+        return True
+    ctx.viol(key, prefix + "objective |Cx-d|^2 of the returned vector exceeds the objective of an independent reference solution "
+             "(truncated SVD of the stacked system): x is not a minimiser", plain=plain,
+             f=f, f_ref=f_ref, tol=tol, x_norm=nx, x_ref_norm=ref["nx_lo"])
+    return False
+
+
 def _tau(nC, nx, nd, rtol=GRAD_RTOL):
     return rtol * (nC * nC * nx + nC * nd)
 
@@ -849,7 +917,7 @@ def _run_nnls(case, ctx, o):
         dual = 0.0 if g.min() >= 0 else np.inf
         comp = 0.0 if not np.any(x * g) else np.inf
     # mechanism attribution for failed certificates
-    upstream_kkt = upstream_rn = False
+    upstream_kkt = upstream_rn = faithful = False
     up_ratio = 0.0      # how inaccurate the third-party solver was on its own system (fraction of the tolerances)
     if len(rec) == 1:
         A_s, y_s, x_s, rn_s = rec[0]
@@ -887,6 +955,22 @@ def _run_nnls(case, ctx, o):
         ctx.viol("nnls:scipy-nnls-non-minimiser" if upstream_kkt else "nnls:kkt-stationarity",
                  (src if upstream_kkt else "") + "a strictly positive component has a non-vanishing gradient: x is not the "
                  "constrained minimiser", plain=upstream_kkt, j=j, g_j=float(g[j]), x_j=float(x[j]), tau=tau)
+    # objective against feasible reference vectors: clipped truncated-SVD solution and a bounded-variable LS solve
+    cands = []
+    try:
+        from scipy.optimize import lsq_linear
+        with warnings.catch_warnings(), np.errstate(all="ignore"):
+            warnings.simplefilter("ignore")
+            cands.append(np.maximum(np.asarray(lsq_linear(C, d, bounds=(0, np.inf), method="bvls").x, dtype=float), 0.0))
+    except Exception:  # noqa  (reference helper only: fewer candidates = weaker, never wrong)
+        pass
+    refx = rm.ls_reference(C, d).get("x_hi")
+    if refx is not None:
+        cands.append(np.maximum(refx, 0.0))
+    cands = [c for c in cands if c.shape == x.shape and np.all(np.isfinite(c))]
+    _objective_check(ctx, "nnls:scipy-nnls-non-minimiser" if faithful else "nnls:objective-above-minimum", "nnls_objective",
+                     C, d, x, rm.EPS, rtol, extra_candidates=cands, plain=faithful, prefix=src if faithful else "",
+                     constrained=True)
     t = relax * (1e-8 * nd + 1e-10 * nC * nx)
     ctx.mon("nnls_rnorm")
     err = abs(rnorm - rn)
@@ -930,6 +1014,7 @@ def _run_lstsq(case, ctx, o):
     tau = _tau(nC, nx, nd, rtol)
     ctx.close(g, np.zeros_like(g), "lstsq:normal-equations", "C^T(Cx-d) != 0: x is not a minimiser of |Wx-b|^2 + alpha^2|Lx|^2",
               atol=tau, monitor="lstsq_normal")
+    _objective_check(ctx, "lstsq:objective-above-minimum", "lstsq_objective", C, d, x, rm.EPS, rtol)
     if np.size(res[1]) == 1:
         t = relax * (1e-9 * nd + 1e-10 * nC * nx)
         ctx.close(float(res[1][0]), rn * rn, "lstsq:residual-inconsistent",
@@ -966,6 +1051,7 @@ def _run_svd(case, ctx, o):
     tau = _tau(nC, nx, nd, rtol)
     ctx.close(g, np.zeros_like(g), "svd:normal-equations", "W^T(Wx-b) != 0: x is not a least-squares solution",
               atol=tau, monitor="svd_normal")
+    _objective_check(ctx, "svd:objective-above-minimum", "svd_objective", W, b, x, eps, rtol)
     # minimum norm: x orthogonal to null(W); judged only when the numerical rank is unambiguous
     U, sv, Vt = np.linalg.svd(W, full_matrices=True)
     smax = float(sv[0]) if sv.size else 0.0
